@@ -11,6 +11,7 @@ from vlib import cfgunit, configrun, gen_envelope as GE, gen_json as G, gen_meta
 from vlib.ref_canon import canon
 from vlib import cfgunit as _cfgunit
 from vlib.runner import Inconclusive, Unit, Violation
+from vlib import interfere as _interfere, interrupt as _interrupt
 
 PROPERTY = "C10"
 LEVEL = "exploration"
@@ -441,4 +442,6 @@ UNITS = [
         doc="three-link root chain signed by GnuPG keys verifies link by link and not across a skipped version"),
     _cfgunit.unit_under_config(PROPERTY, 'primitive', exclude=()),
     _cfgunit.unit_under_config(PROPERTY, 'signable', exclude=()),
+    _interfere.unit_after(PROPERTY, 'primitive', quick=150, thorough=6000),
+    _interrupt.unit_interrupted(PROPERTY, 'primitive', quick=18, thorough=450, max_points=150),
 ]
